@@ -35,13 +35,13 @@ class SimFile(object):
         f = fs.match('fs_write_fail', self.path, n)
         if f is not None:
             fs.fire(f)
-            raise OSError(28, 'simfs: injected write failure', self.path)
+            raise OSError('simfs: injected write failure ' + self.path)
         f = fs.match('fs_short_write', self.path, n)
         if f is not None:
             fs.fire(f)
             part = txt[0:len(txt) // 2]
             fs.files[self.path] += part
-            raise OSError(5, 'simfs: injected short write', self.path)
+            raise OSError('simfs: injected short write ' + self.path)
         fs.files[self.path] += txt
         fs.acked[self.path] += txt
         return len(txt)
@@ -64,7 +64,7 @@ class SimFile(object):
         f = self.fs.match('fs_close_fail', self.path, 1)
         if f is not None:
             self.fs.fire(f)
-            raise OSError(5, 'simfs: injected close failure', self.path)
+            raise OSError('simfs: injected close failure ' + self.path)
 
     def __enter__(self):
         return self
@@ -125,7 +125,7 @@ class SimFS(object):
         f = self.match('fs_open_fail', path, n)
         if f is not None:
             self.fire(f)
-            raise OSError(13, 'simfs: injected open failure', path)
+            raise OSError('simfs: injected open failure ' + path)
         h = SimFile(self, path, mode)
         self.open_handles.add(path, h)
         return h
